@@ -73,7 +73,7 @@ def values(tier):
     base = [['none'], ['str', ''], ['str', 'a'], ['str', 'é'], ['bytes', b''], ['bytes', b'b'], ['zero'], ['list', []]]
     vs = list(base)
     ils = item_lists(3 if tier == 'quick' else 4)
-    for kind in ('list', 'gen', 'citer'):
+    for kind in ('list', 'gen', 'citer', 'citer2'):
         for il in ils:
             if il or kind != 'list':
                 vs.append([kind, il])
@@ -95,7 +95,7 @@ def programs(tier):
         for st in (201, 204, 304, 100):
             progs.append(['return', v, st])
     # response objects returned / raised, nesting <= 2
-    inner = base + [['gen', [['s', ''], ['s', 'a']]], ['citer', [['b', b'b']]], ['gen', [['raise']]], ['gen', [['err', 404]]],
+    inner = base + [['gen', [['s', ''], ['s', 'a']]], ['citer', [['b', b'b']]], ['citer2', [['s', 'a'], ['s', 'a']]], ['gen', [['raise']]], ['gen', [['err', 404]]],
                     ['file', True, False, b'filedata'], ['bytesio', b'filedata']]
     for st in STATUSES:
         for v in inner:
@@ -123,12 +123,15 @@ for nb in (0, 1, 2):
 for errh in ('500str', '404resp', '500raise', 'allraise'):
     CONFIGS.append({'before': 1, 'fail': None, 'after': 1, 'errh': errh})
     CONFIGS.append({'before': 2, 'fail': (1, 'exc'), 'after': 2, 'errh': errh})
+for other in ('created-after', 'created-before'):
+    CONFIGS.append({'before': 1, 'fail': None, 'after': 1, 'errh': None, 'other_app': other})
+    CONFIGS.append({'before': 0, 'fail': None, 'after': 0, 'errh': None, 'other_app': other})
 for sr in ('before0', 'before1', 'after0', 'after1'):
     CONFIGS.append({'before': 2, 'fail': None, 'after': 2, 'errh': None, 'selfremove': sr})
     CONFIGS.append({'before': 2, 'fail': (1, 'exc'), 'after': 2, 'errh': None, 'selfremove': sr})
 BASE_CFG = {'before': 0, 'fail': None, 'after': 0, 'errh': None}
 REPR_PROGS = [['return', ['str', 'a'], None], ['return', ['none'], None], ['return', ['gen', [['s', ''], ['s', 'a']]], None],
-              ['return', ['citer', [['b', b'b']]], None], ['return', ['gen', [['raise']]], None], ['raise', ['exc']],
+              ['return', ['citer', [['b', b'b']]], None], ['return', ['citer2', [['s', 'a']]], None], ['return', ['gen', [['raise']]], None], ['raise', ['exc']],
               ['raise', ['resp', ['str', 'a'], 201]], ['raise', ['err', 404, 'boom']], ['return', ['err', 500, 'boom'], None],
               ['return', ['file', True, False, b'filedata'], None], ['return', ['str', 'a'], 204], ['return', ['list', [['err', 404]]], None]]
 
@@ -173,6 +176,20 @@ class CIter:
         it = self.items[self.i]
         self.i += 1
         return real_item(self.om, it)
+
+    def close(self):
+        self.rec['closes'] += 1
+
+
+class CIter2:
+    """a closable iterable (result-set style) whose __iter__ hands out a separate iterator object"""
+
+    def __init__(self, om, items, rec):
+        self.om, self.items, self.rec = om, list(items), rec
+
+    def __iter__(self):
+        om = self.om
+        return (real_item(om, it) for it in self.items)
 
     def close(self):
         self.rec['closes'] += 1
@@ -258,6 +275,8 @@ def real_value(om, v, rec):
         return g()
     if k == 'citer':
         return CIter(om, v[1], rec)
+    if k == 'citer2':
+        return CIter2(om, v[1], rec)
     if k == 'file':
         cls = {(True, True): FileCloseIter, (True, False): FileClose, (False, True): FileIter, (False, False): FileLike}[(v[1], v[2])]
         return cls(v[3], rec)
@@ -330,7 +349,7 @@ def ev(v, status, cfg):
     if first[0] == 'err':
         return errpage(first[1], cfg) + (False,)
     body = b''.join((x[1].encode('utf8') if x[0] == 's' else x[1]) for x in items[i:])
-    return (status, body, None, k == 'citer')
+    return (status, body, None, k in ('citer', 'citer2'))
 
 
 def expected(prog, method, cfg, outcome='found'):
@@ -369,10 +388,23 @@ def expected(prog, method, cfg, outcome='found'):
 
 # ---- driving ---------------------------------------------------------------------------------------------------------------
 
+def other_app(om, log):
+    """another application in the same process with hooks of its own (they must never run for our requests)"""
+    o = om.Ombott()
+    o.add_hook('before_request', lambda: log.append('OTHER-before'))
+    o.add_hook('after_request', lambda: log.append('OTHER-after'))
+    o.route('/h', 'GET', lambda: 'other')
+    return o
+
+
 def serve(om, prog, method, cfg, outcome='found', file_wrapper=False):
-    app = om.Ombott()
     rec = {'closes': 0, 'log': []}
     log = rec['log']
+    if cfg.get('other_app'):
+        om = sut.load(fresh=True)       # hook registries are per-process state: start clean
+    if cfg.get('other_app') == 'created-before':
+        other_app(om, log)
+    app = om.Ombott()
     hooks = {}
     for i in range(cfg['before']):
         def bh(_i=i):
@@ -416,6 +448,10 @@ def serve(om, prog, method, cfg, outcome='found', file_wrapper=False):
         if prog[2]:
             app.response.status = prog[2]
         return real_value(om, prog[1], rec)
+    if cfg.get('other_app') == 'created-after':
+        o = other_app(om, log)
+        wsgi.call(o, wsgi.environ('GET', '/h'))
+        del log[:]
     reg_method = 'PUT' if outcome == '405' else [m for m in ('GET', 'POST')]
     app.route('/h', reg_method, handler)
     path = '/missing' if outcome == '404' else '/h'
@@ -441,7 +477,8 @@ def judge(om, prog, method, cfg, outcome, file_wrapper):
     if page == 'page' and method != 'HEAD' and status not in NOBODY and not c.body:
         return ('empty-error-page', f'{status} error page without a body'), c, rec
     if rec['log'] != log:
-        return ('hooks', f'hook/handler log {rec["log"]!r}, expected {log!r}'), c, rec
+        return ('hooks:other-application' if any(x.startswith('OTHER') for x in rec['log']) else 'hooks',
+                f'hook/handler log {rec["log"]!r}, expected {log!r}'), c, rec
     if closable and (body or method == 'HEAD' or status in NOBODY):
         produced = True
         if prog[0] == 'return' or prog[0] == 'raise':
@@ -452,7 +489,7 @@ def judge(om, prog, method, cfg, outcome, file_wrapper):
                 while inner[0] == 'resp':
                     inner = inner[1]
                 has_output = (inner[0] in ('file', 'bytesio') and (inner[3] if inner[0] == 'file' else inner[1])) or \
-                             (inner[0] == 'citer' and any(it[0] in ('s', 'b') and it[1] for it in inner[1]))
+                             (inner[0] in ('citer', 'citer2') and any(it[0] in ('s', 'b') and it[1] for it in inner[1]))
                 if has_output:
                     return ('close', f'close() called {rec["closes"]} times on the handler iterable, expected exactly once'), c, rec
     return None, c, rec
